@@ -39,10 +39,11 @@ class Slot:
         self.started = False
         self.blocked_on: 'Slot | None' = None
         self.priority = 0.0
+        self.local = 0  # number of yield points this actor has passed
 
 
 class Scheduler:
-    def __init__(self, rng: random.Random, swarm: dict, decisions: list[int] | None, est_points: int):
+    def __init__(self, rng: random.Random, swarm: dict, decisions: list[int] | None, est_points: int, switches: list | None = None):
         self.rng = rng
         self.strategy = swarm.get('strategy', 'random')
         self.p_switch = swarm.get('p_switch', 0.3)
@@ -52,6 +53,12 @@ class Scheduler:
         self.replay = list(decisions) if decisions is not None else None
         self.pos = 0
         self.record: list[int] = []
+        # Second replay format, used while minimising: only the real hand-overs, each as
+        # [actor, that actor's own yield-point count, next actor].  Deleting statements of *other*
+        # actors does not move these positions, unlike positions in the flat decision list.
+        self.sw_replay = [list(x) for x in switches] if (switches is not None and decisions is None) else None
+        self.sw_pos = 0
+        self.switch_log: list = []
         self.slots: dict[int, Slot] = {}
         self.abort = False
         self.points = 0
@@ -60,14 +67,14 @@ class Scheduler:
         self.all_done = threading.Semaphore(0)
         self.low_priority = 0.0
         self.change_points: set[int] = set()
-        if self.strategy == 'pct' and self.replay is None:
+        if self.strategy == 'pct' and self.replay is None and self.sw_replay is None:
             for _ in range(swarm.get('pct_depth', 1)):
                 self.change_points.add(rng.randint(1, max(2, est_points)))
 
     # ------------------------------------------------------------------ registration
     def register(self, aid: int) -> Slot:
         slot = Slot(aid)
-        if self.replay is None and self.strategy == 'pct':
+        if self.replay is None and self.sw_replay is None and self.strategy == 'pct':
             slot.priority = self.rng.random() + 1.0
         self.slots[aid] = slot
         return slot
@@ -94,6 +101,8 @@ class Scheduler:
                     if s.aid == want:
                         return s
             return me if me_ok else runnable[0]
+        if self.sw_replay is not None:
+            return self._choose_by_switches(me, runnable, me_ok)
         rng = self.rng
         if len(runnable) == 1:
             return runnable[0]
@@ -117,6 +126,31 @@ class Scheduler:
             return rng.choice(runnable)
         return me
 
+    def _choose_by_switches(self, me: Slot | None, runnable: list[Slot], me_ok: bool) -> Slot:
+        log = self.sw_replay
+        # drop entries that can no longer fire (their actor is done, or already past that point)
+        while self.sw_pos < len(log):
+            aid, local, _ = log[self.sw_pos]
+            slot = self.slots.get(aid)
+            if slot is not None and (slot.done or slot.local > local):
+                self.sw_pos += 1
+            else:
+                break
+        entry = log[self.sw_pos] if self.sw_pos < len(log) else None
+        if me_ok:
+            if entry is not None and entry[0] == me.aid and entry[1] == me.local:
+                self.sw_pos += 1
+                for s in runnable:
+                    if s.aid == entry[2] and s is not me:
+                        return s
+            return me
+        # the holder cannot go on (finished or joining): prefer the actor the next entry waits for
+        if entry is not None:
+            for s in runnable:
+                if s.aid == entry[0]:
+                    return s
+        return runnable[0]
+
     # ------------------------------------------------------------------ yield points
     def point(self, me: Slot, kind: str, before_park=None) -> bool:
         """A yield point of the baton holder.  Returns True if another actor ran meanwhile.
@@ -125,6 +159,7 @@ class Scheduler:
         if self.abort:
             raise Abort()
         self.points += 1
+        me.local += 1
         if self.points > MAX_POINTS:
             self.abort = True
             raise HarnessError('scheduling point budget exceeded')
@@ -138,6 +173,7 @@ class Scheduler:
             return False
         if before_park is not None:
             before_park()
+        self.switch_log.append([me.aid, me.local, nxt.aid])
         self.switches += 1
         self.current = nxt
         nxt.sem.release()
